@@ -134,6 +134,22 @@ def extract(src):
     glue = src[clo_hi + 1:m3.start()]
     if not re.match(r",?\s*\);\s*$", glue):
         raise Lost("glue lost: unexpected code between the fold and the props assembly")
+    # ---- transform_jsx_element: hint emission and withDirectives wrapping ----
+    e_lo, e_hi = find_fn(src, "transform_jsx_element")
+    m6 = re.compile(r"\n        if self\.options\.optimize \{\n            if !patch_flags\.is_empty\(\) \{").search(src, e_lo, e_hi)
+    if not m6:
+        raise Lost("anchor lost: hint emission block `if self.options.optimize { if !patch_flags.is_empty() {` in transform_jsx_element")
+    o = src.index("{", m6.start())
+    c = lex_match_brace(src, o)
+    regs["emit_hints"] = (m6.start() + 1, c + 1)
+    m7 = re.compile(r"\n        if directives\.is_empty\(\) \{\n            create_vnode_call\n        \} else \{").search(src, c, e_hi)
+    if not m7:
+        raise Lost("anchor lost: `if directives.is_empty() { create_vnode_call } else {` in transform_jsx_element")
+    else_open = m7.end() - 1
+    else_close = lex_match_brace(src, else_open)
+    regs["wrap_directives"] = (m7.start() + 1, else_close + 1)
+    if src[else_close + 1:e_hi].strip():
+        raise Lost("glue lost: code after the withDirectives wrapping in transform_jsx_element")
     return regs
 
 
@@ -211,10 +227,19 @@ def generate(src, path):
     lo, hi = regs["finalize"]
     out.append("    pub(crate) fn x_finalize(has_dynamic_keys: bool, has_class_binding: bool, has_style_binding: bool, has_hydration_event_binding: bool, has_ref: bool,\n"
                "        dynamic_props: &IndexSet<Cow<'_, str>>, directives: &Vec<NormalDirective>) -> PatchFlags {\n")
-    out.append("// ---- BEGIN verbatim region `finalize` ----\n" + src[lo:hi] + "// ---- END verbatim region `finalize` ----\n        patch_flags\n    }\n}\n")
+    out.append("// ---- BEGIN verbatim region `finalize` ----\n" + src[lo:hi] + "// ---- END verbatim region `finalize` ----\n        patch_flags\n    }\n\n")
+    lo, hi = regs["emit_hints"]
+    out.append("    /// region of `transform_jsx_element`: appends the patch-flag / dynamic-prop arguments to the vnode call\n"
+               "    pub(crate) fn x_emit_hints(&mut self, vnode_call_args: &mut Vec<ExprOrSpread>, patch_flags: PatchFlags, dynamic_props: Option<IndexSet<Cow<'_, str>>>) {\n")
+    out.append("// ---- BEGIN verbatim region `emit_hints` ----\n" + src[lo:hi] + "\n// ---- END verbatim region `emit_hints` ----\n    }\n\n")
+    lo, hi = regs["wrap_directives"]
+    out.append("    /// region of `transform_jsx_element`: the tail expression that wraps the vnode call in withDirectives\n"
+               "    pub(crate) fn x_wrap_directives(&mut self, create_vnode_call: Expr, directives: Vec<NormalDirective>, jsx_element: &JSXElement) -> Expr {\n")
+    out.append("// ---- BEGIN verbatim region `wrap_directives` ----\n" + src[lo:hi] + "\n// ---- END verbatim region `wrap_directives` ----\n    }\n}\n")
     summary = dict(source=path, sha256_16=sha,
                    regions={k: dict(first_line=src.count("\n", 0, v[0]) + 1, last_line=src.count("\n", 0, v[1]) + 1, bytes=v[1] - v[0],
                                     sha256_16=hashlib.sha256(src[v[0]:v[1]].encode()).hexdigest()[:16]) for k, v in regs.items()},
+                   dropped_jsx_element="transform_jsx_element outside its two regions: slot-flag push, the calls of is_component / transform_attrs / transform_tag / transform_children that build the first three arguments, and the construction of the vnode call expression",
                    dropped="code of transform_attrs outside the regions: the early return for an empty attribute list, the fold call and its accumulator, "
                            "the closure header, the match header; replaced by AttrState (locals moved in and out) and parameters")
     return "".join(out), summary
